@@ -27,6 +27,15 @@ ChurnNext == \/ hist = <<>> /\ SvcConnect("s1", TRUE)
              \/ Len(hist) = 6 /\ \E s \in Svc : SvcDisconnect(s)
              \/ Len(hist) = 7 /\ \E s \in Svc : SvcDisconnect(s)
 ChurnSpec == Init /\ [][ChurnNext]_vars
+(* both connections register something and leave at the same moment, six times over *)
+TogetherNext == LET ph == Len(hist) % 5 IN
+                /\ Len(hist) < MaxOps
+                /\ \/ ph = 0 /\ SvcConnect("s1", TRUE)
+                   \/ ph = 1 /\ SvcConnect("s2", TRUE)
+                   \/ ph = 2 /\ \E w \in {"agent", "listener", "exc2"} : (Len(hist) = 2 \/ hist[3].b = w \o ":x1") /\ SvcReg("s1", w, "x1")
+                   \/ ph = 3 /\ SvcReg("s2", "agent", "x2")
+                   \/ ph = 4 /\ SvcLeaveTogether
+TogetherSpec == Init /\ [][TogetherNext]_vars
 DupNext == \/ hist = <<>> /\ SvcConnect("s1", TRUE)
            \/ Len(hist) = 1 /\ SvcConnect("s2", TRUE)
            \/ Len(hist) = 2 /\ \E w \in {"agent", "listener", "exc2"} : SvcReg("s1", w, "x1")
